@@ -636,6 +636,13 @@ func (f *Frame) syncCall(bi *BInfo, fn *ssa.Function, args []T, argVals []ssa.Va
 				g.resolutionFailure(f, fmt.Sprintf("lock invariant %s: %v", ld.Field, err))
 			}
 		}
+		if f.top.fc != nil && f.top.fc.Opts["old"] == "cs" && !f.specMode {
+			// the contract describes the atomic effect of the critical section: old() refers to the
+			// state found when the lock was acquired
+			nx := f.top.entry.next
+			f.top.entry = st.clone()
+			f.top.entry.next = nx
+		}
 		for _, c := range ld.Rely {
 			if v, err := env.evalBool(c.Expr); err == nil {
 				g.assert(sImp(bi.R, v.S))
